@@ -398,6 +398,9 @@ func main() {
 			sum.Sample(map[string]any{"pid_token": tok, "line": g.Line, "mode": mode, "events": len(o.Events), "forwards": len(o.Fwds)})
 		}
 	}
+	if *prop == "C07" {
+		auditFramingChecks(sum, r, *n/2)
+	}
 	cases.Flush()
 	sum.CaseFiles = cases.Files
 	sum.Write(*out)
